@@ -96,6 +96,22 @@ C08KnownF2 ==
     /\ PrintT(<<"KNOWN", "F2", l>>)
     /\ Step
 
+\* KNOWN FINDING F3 (known_findings.json): the same cause as F2 under the AngleBased policy ("only if their calculated
+\* prayer times are invalid"): every time exists conventionally (Isha = Maghrib + interval), but the hidden angle-0 Isha
+\* does not, so angle_based runs, replaces the valid Fajr (and with it Imsaak) and flags Isha, whose value the interval
+\* rewrite then restores.  Accepted only while listed and only for this shape.
+KnownF3 == "KNOWN_F3" \in DOMAIN IOEnv /\ IOEnv.KNOWN_F3 = "1"
+C08KnownF3 ==
+    /\ Is("c08") /\ KnownF3 /\ WellFormed(Ev.a) /\ WellFormed(Ev.b)
+    /\ Ev.p.ii # 0 /\ Ev.p.ia = 0 /\ Ev.p.pol = AngleBased
+    /\ \A p \in P7 : Ok(Ev.a, p) /\ ~Flagged(Ev.a, p)
+    /\ Ok(Ev.b, Isha) /\ Ev.b.t[Isha] = Ev.a.t[Isha] /\ Flagged(Ev.b, Isha)
+    /\ \A p \in {Shurooq, Dhuhr, Asr, Maghrib} : SameEntry(Ev.a, Ev.b, p)
+    /\ Ok(Ev.b, Fajr) /\ Flagged(Ev.b, Fajr)
+    /\ Ok(Ev.b, Imsaak) => Flagged(Ev.b, Imsaak)
+    /\ PrintT(<<"KNOWN", "F3", l>>)
+    /\ Step
+
 (* C09: nb = conventional results (same offsets and rounding, policy None) of the dates d+o,
    for o = -m..m where m is the distance of the nearest date on which Fajr and Isha both exist *)
 NbOf(o) == CHOOSE n \in 1..Len(Ev.nb) : Ev.nb[n].o = o
@@ -227,7 +243,7 @@ PipeCall ==
     /\ Step
 
 TraceInit == l = Start
-TraceNext == PipeCall \/ C05Call \/ C07Call \/ C08Call \/ C08KnownF2 \/ C09Call \/ C10Call \/ C11Call \/ C12Call
+TraceNext == PipeCall \/ C05Call \/ C07Call \/ C08Call \/ C08KnownF2 \/ C08KnownF3 \/ C09Call \/ C10Call \/ C11Call \/ C12Call
 TraceSpec == TraceInit /\ [][TraceNext]_l
 
 TraceAccepted ==
